@@ -81,8 +81,10 @@ def _teardown(ctx, rep, pnames, n, label):
                 rep.violate('residue after complete tear-down: %s' % (res[:2],),
                             dict(F.case_of(seed, pname, ops), oracle='emptiness-walk'))
                 continue
-            # re-use: put removed top-level items into a fresh fit of a fresh solar system
-            _reuse(rep, w, removed_items, seed, pname, h)
+            # re-use: put removed top-level items into a fresh fit of a fresh solar system (Lean spec comparison:
+            # not for universes with python modifiers, which the spec does not model)
+            if not p.get('pymods'):
+                _reuse(rep, w, removed_items, seed, pname, h)
 
 
 def _reuse(rep, w, items, seed, pname, h):
@@ -137,7 +139,7 @@ def _reuse(rep, w, items, seed, pname, h):
 def correspondence(ctx):
     rep = ctx.report
     rep.rules.append(RULE)
-    _teardown(ctx, rep, ['basic', 'fleet', 'noswitch-projected', 'long', 'three-fits-decimal'], ctx.n(40, 800), 'teardown')
+    _teardown(ctx, rep, ['basic', 'fleet', 'projheavy', 'long', 'three-fits-decimal', 'pymods'], ctx.n(40, 800), 'teardown')
 
 
 def _k1_residue_witness(rep):
